@@ -70,10 +70,17 @@ func defaultReturnHandler() ReturnHandler {
 			respVal = respVal.Elem()
 		}
 
+		var body []byte
 		if isByteSlice(respVal) {
-			_, _ = w.Write(respVal.Bytes())
+			body = respVal.Bytes()
 		} else {
-			_, _ = w.Write([]byte(respVal.String()))
+			body = []byte(respVal.String())
 		}
+
+		// An empty body writes nothing, same as a nil one, so the chain continues.
+		if len(body) == 0 {
+			return
+		}
+		_, _ = w.Write(body)
 	}
 }
